@@ -167,11 +167,11 @@ theorem runAll_rinv (ts : TS) (k : Bytes) (v0 : Option Write) (late : List TS) (
     exact ih (c.lateAfter late) (c.run s) (SInv_run s c hs hok.1) hok.2
       (h1.mono (lateAfter_sub late c k lab hlab)) hg.2
 
-/-- a read that the store serves under SI (no lock bypass list, not the "read latest" timestamp) meets no data lock at
-    or below its timestamp -/
-theorem served_read_no_data_lock (e : Entry) (k : Bytes) (ts : TS) (v : Option Write) (hts : ts ≠ maxU64)
-    (h : getValue e k ts true [] = .ok v) :
-    v = firstVisible e.writes ts ∧ ∀ l, e.lock = some l → l.startTS ≤ ts → dataLock l = false := by
+/-- a read that the store serves under SI (not the "read latest" timestamp): every data lock at or below its timestamp
+    is one the reader was told to bypass (`rs`, the resolved-locks list of the request) -/
+theorem served_read_no_data_lock (e : Entry) (k : Bytes) (ts : TS) (rs : List TS) (v : Option Write) (hts : ts ≠ maxU64)
+    (h : getValue e k ts true rs = .ok v) :
+    v = firstVisible e.writes ts ∧ ∀ l, e.lock = some l → l.startTS ≤ ts → dataLock l = true → l.startTS ∈ rs := by
   simp only [getValue, if_true] at h
   cases hl : e.lock with
   | none => rw [hl] at h; injection h with h; exact ⟨h.symm, fun l hl' => by cases hl'⟩
@@ -182,28 +182,46 @@ theorem served_read_no_data_lock (e : Entry) (k : Bytes) (ts : TS) (v : Option W
     by_cases hc : (decide (l.startTS > ts) || l.op == Op.lock || l.op == Op.pessimisticLock) = true
     · rw [if_pos hc] at h
       injection h with h
-      refine ⟨h.symm, fun l' hl' hle => ?_⟩
+      refine ⟨h.symm, fun l' hl' hle hd => ?_⟩
       injection hl' with hl'; subst hl'
       simp only [Bool.or_eq_true, decide_eq_true_eq, beq_iff_eq] at hc
       rcases hc with (h1 | h1) | h1
       · omega
-      · simp [dataLock, h1]
-      · simp [dataLock, h1]
+      · simp [dataLock, h1] at hd
+      · simp [dataLock, h1] at hd
     · rw [if_neg hc] at h
-      simp [hne] at h
+      simp only [hne, Bool.false_and, Bool.false_eq_true, if_false] at h
+      by_cases hr : rs.contains l.startTS = true
+      · rw [if_pos hr] at h
+        injection h with h
+        refine ⟨h.symm, fun l' hl' _ _ => ?_⟩
+        injection hl' with hl'; subst hl'
+        simpa using hr
+      · rw [if_neg hr] at h; cases h
 
-/-- SNAPSHOT ISOLATION OF A SERVED READ, every run: if the store served a read of `k` at `ts` in state `s`, then after
-    ANY later command sequence respecting the callers' contract and the environment guard (`SIGuardAll`: transactions
-    that lock `k` after the read commit above `ts`, versions are not reused, GC safe points ≤ `ts`, no destroy-range),
-    the version visible at `ts` on `k` is still the one that was served -/
-theorem served_read_is_snapshot (ts : TS) (k : Bytes) (s : Store) (cs : List Cmd) (v : Option Write)
+/-- SNAPSHOT ISOLATION OF A SERVED READ, every run: if the store served a read of `k` at `ts` in state `s` (bypassing
+    the locks of the transactions in `rs`), then after ANY later command sequence respecting the callers' contract and
+    the environment guard (`SIGuardAll ts k rs`: the bypassed transactions and the transactions that lock `k` after
+    the read commit above `ts`; versions are not reused; GC safe points ≤ `ts`; no destroy-range), the version visible
+    at `ts` on `k` is still the one that was served.
+    Why the guard is what the protocol gives: a transaction that locks after the read gets its commit ts from the
+    oracle after the reader got `ts`; a bypassed transaction was reported committed above `ts`, or had the
+    min_commit_ts of its primary pushed above `ts` — and the store refuses a commit below a lock's min_commit_ts. -/
+theorem served_read_is_snapshot (ts : TS) (k : Bytes) (s : Store) (cs : List Cmd) (rs : List TS) (v : Option Write)
     (hs : SInv s) (hok : OkAll s cs) (hts : ts ≠ maxU64)
-    (hserved : getValue (getEntry s.kv k) k ts true [] = .ok v) (hg : SIGuardAll ts k [] s cs) :
+    (hserved : getValue (getEntry s.kv k) k ts true rs = .ok v) (hg : SIGuardAll ts k rs s cs) :
     firstVisible (getEntry (runAll s cs).kv k).writes ts = v := by
-  obtain ⟨hv, hnl⟩ := served_read_no_data_lock _ k ts v hts hserved
-  have hr : RInv ts v [] (getEntry s.kv k) :=
-    ⟨hv.symm, fun l hl hle hd => by rw [hnl l hl hle] at hd; cases hd⟩
-  obtain ⟨_, hfin⟩ := runAll_rinv ts k v [] s cs hs hok hr hg
+  obtain ⟨hv, hnl⟩ := served_read_no_data_lock _ k ts rs v hts hserved
+  have hr : RInv ts v rs (getEntry s.kv k) := ⟨hv.symm, hnl⟩
+  obtain ⟨_, hfin⟩ := runAll_rinv ts k v rs s cs hs hok hr hg
   exact hfin.read
+
+/-- the store refuses a commit below the lock's min_commit_ts (what a pushed min_commit_ts buys the reader) -/
+theorem commit_below_min_commit_ts_refused (s : Store) (k : Bytes) (T C : TS) (l : Lock)
+    (hl : (getEntry s.kv k).lock = some l) (hT : l.startTS = T) (hlt : C < l.minCommitTS) :
+    ∃ e, commitKey s k T C = .error e := by
+  simp only [commitKey, filter_of_lock hl hT]
+  have : l.minCommitTS > C := hlt
+  simp [this]
 
 end CGV.Mvcc
